@@ -18,8 +18,10 @@ import (
 	"os"
 	"os/exec"
 	"path/filepath"
+	"runtime"
 	"strings"
 	"testing"
+	"time"
 
 	"github.com/alicebob/sqlittle"
 	sdb "github.com/alicebob/sqlittle/db"
@@ -130,12 +132,17 @@ type spec struct {
 	// "" nothing, "open-txn" an open transaction with its journal (RESERVED
 	// held), "hot-journal" the journal of a crashed transaction
 	Writer string `json:",omitempty"`
+	// FailedOpen: before the call an Open of the same file in this process
+	// failed (the file was in WAL mode for a moment). Whatever that attempt
+	// left behind must not hurt later reads (side action "gc" lets the
+	// garbage collector finalise what it finds).
+	FailedOpen bool `json:",omitempty"`
 }
 
 var ops = []string{"Select", "SelectDone", "SelectRowid", "IndexedSelect", "IndexedSelectEq", "PKSelect", "PKSelect-wr", "Columns", "Select-wr", "IndexedSelect-wr"}
 var exits = []string{"normal", "normal", "stop", "error-column", "error-table", "error-index", "fault", "panic"}
 var sideKinds = []string{"commit-attempt", "commit-attempt", "other-file-open-read-close", "peer-read", "peer-hold", "peer-release",
-	"same-process-open", "same-process-read", "same-process-close", "same-process-open-close", "probe", "same-handle-nested-call", "same-process-close-then-read"}
+	"same-process-open", "same-process-read", "same-process-close", "same-process-open-close", "probe", "same-handle-nested-call", "same-process-close-then-read", "gc", "gc"}
 
 func TestC06Held(t *testing.T) {
 	vt.Exec(t, vt.Check[spec]{
@@ -151,6 +158,7 @@ func TestC06Held(t *testing.T) {
 				ExitAt:   rapid.IntRange(1, 12).Draw(t, "exitat"),
 				Writer:   rapid.SampledFrom([]string{"", "", "", "open-txn", "hot-journal", "raw-exclusive"}).Draw(t, "writer"),
 			}
+			s.FailedOpen = rapid.IntRange(0, 3).Draw(t, "failedopen") == 0
 			n := rapid.IntRange(0, 4).Draw(t, "nsides")
 			for i := 0; i < n; i++ {
 				s.Sides = append(s.Sides, side{At: rapid.IntRange(0, 30).Draw(t, "at"), Kind: rapid.SampledFrom(sideKinds).Draw(t, "sk")})
@@ -181,6 +189,19 @@ func run(r *vt.Run, t vt.TB, s spec) {
 	defer env.O.Close("w")
 	mypid := os.Getpid()
 
+	if s.FailedOpen {
+		// the file is in WAL mode for a moment; an Open in between fails
+		if rows, err := env.O.Query("w", "PRAGMA journal_mode=WAL"); err != nil || len(rows) != 1 || string(rows[0][0].B) != "wal" {
+			r.Harness(t, "switch to WAL: %v %v", rows, err)
+		}
+		if h, err := sqlittle.Open(path); err == nil {
+			h.Close()
+			r.Harness(t, "a WAL-mode file opens")
+		}
+		if rows, err := env.O.Query("w", "PRAGMA journal_mode=DELETE"); err != nil || len(rows) != 1 || string(rows[0][0].B) != "delete" {
+			r.Harness(t, "switch back from WAL: %v %v", rows, err)
+		}
+	}
 	real, err := sdb.VerifFilePager(path)
 	if err != nil {
 		r.Harness(t, "file pager: %v", err)
@@ -334,6 +355,17 @@ func run(r *vt.Run, t vt.TB, s spec) {
 				}()
 				nesting = false
 				classes["side:nested-call-inside-callback"] = true
+			}
+		case "gc":
+			// finalisers of objects nobody holds any more run now (an open
+			// file somebody forgot is closed by its finaliser, and a close
+			// of any descriptor of the file drops the process' locks on it)
+			runtime.GC()
+			time.Sleep(3 * time.Millisecond)
+			runtime.GC()
+			time.Sleep(time.Millisecond)
+			if s.FailedOpen {
+				classes["side:gc-after-failed-open"] = true
 			}
 		case "same-process-close-then-read":
 			// three handles: one is closed while the operation holds the lock
